@@ -106,10 +106,19 @@ class FinamInterp(Interp):
         if isinstance(ent, Module) or isinstance(ent, (Func, Class)):
             return super().global_name(name, mod)
         if isinstance(ent, ast.AST):
+            # module-level values exist once per process: a mutable one (memo dict, registry object) is evaluated once per
+            # interpreter and shared by every later reference, as in Python
+            memo = self.__dict__.setdefault("_module_values", {})
+            key = (getattr(mod, "name", None), name)
+            if key in memo:
+                return memo[key]
             try:
-                return self.eval(ent, {"__mod__": mod}, mod)
+                v = self.eval(ent, {"__mod__": mod}, mod)
             except AnalysisError:
                 return Sym("ext", name)
+            if isinstance(v, (dict, list, set, Obj)):
+                memo[key] = v
+            return v
         return ent
 
     def get_attr(self, obj, attr, node, mod):
@@ -164,6 +173,20 @@ class FinamInterp(Interp):
                 raise AnalysisError("deque with maxlen not in vocabulary")
             from .interp import Deque
             return Deque(self.iterate(args[0], node) if args else [])
+        if name in ("islice", "itertools.islice") and args and isinstance(args[0], (list, tuple)) and all(a is None or isinstance(a, int) for a in args[1:]):
+            return list(args[0])[slice(*args[1:])]
+        if name in ("reduce", "functools.reduce") and len(args) >= 2 and isinstance(args[0], Sym) and args[0].op == "ext" \
+                and args[0].args[0] in ("operator.add", "operator.mul", "operator.sub", "add", "mul") and isinstance(args[1], (list, tuple)):
+            op = {"add": ast.Add(), "mul": ast.Mult(), "sub": ast.Sub()}[args[0].args[0].split(".")[-1]]
+            seq = list(args[1])
+            if len(args) > 2:
+                seq = [args[2]] + seq
+            if not seq:
+                self.on_raise(Sym("exc", "TypeError", "reduce() of empty iterable with no initial value"), node)
+            acc = seq[0]
+            for x in seq[1:]:
+                acc = self.binop(op, acc, x, node)
+            return acc
         if name in ("count", "itertools.count"):
             from .interp import Count
             return Count(*args)
@@ -274,12 +297,19 @@ def seed_from_init(it, cls, obj, params=None, skip=()):
                     env[x.arg] = it.eval(d, dict(env), f.module)
                 except (AnalysisError, Undecided, Raised):
                     pass
-        for st in ast.walk(f.node):
+        for st in _stmts_in_order(f.node):
             tgt = None
             if isinstance(st, ast.Assign) and len(st.targets) == 1:
                 tgt, val = st.targets[0], st.value
             elif isinstance(st, ast.AnnAssign) and st.value is not None:
                 tgt, val = st.target, st.value
+            if isinstance(tgt, ast.Name) and tgt.id not in env:
+                # a local helper value of the constructor (`step = (upper - lower) / bins`): kept when it evaluates
+                try:
+                    env[tgt.id] = it.eval(val, dict(env), f.module)
+                except (AnalysisError, Undecided, Raised, KeyError, RecursionError):
+                    pass
+                continue
             if tgt is None or not (isinstance(tgt, ast.Attribute) and isinstance(tgt.value, ast.Name) and tgt.value.id == "self"):
                 continue
             if tgt.attr in skip or repo.resolve(cls, tgt.attr, "setter") is not None:
@@ -291,6 +321,26 @@ def seed_from_init(it, cls, obj, params=None, skip=()):
             obj.fields[tgt.attr] = v
             done.append(tgt.attr)
     return done
+
+
+def _stmts_in_order(fn_node):
+    """All statements of a function body in source order (nested blocks included, nested functions excluded)."""
+    out = []
+
+    def rec(stmts):
+        for st in stmts:
+            if isinstance(st, (ast.FunctionDef, ast.AsyncFunctionDef, ast.ClassDef)):
+                continue
+            out.append(st)
+            for field in ("body", "orelse", "finalbody"):
+                blk = getattr(st, field, None)
+                if isinstance(blk, list):
+                    rec(blk)
+            for h in getattr(st, "handlers", []) or []:
+                rec(h.body)
+
+    rec(fn_node.body)
+    return out
 
 
 def backing_attr(repo, cls, prop):
